@@ -1,20 +1,47 @@
 package exec
 
-import (
-	"verif/engine/term"
-)
+import "verif/engine/term"
 
 // internal/bytealg.MakeNoZero(n) allocates n bytes without clearing them (used by
 // bytes.Repeat, strings.Builder, ...). Every caller overwrites the bytes before reading them, so
 // a zeroed allocation is a sound model. A symbolic length goes through the usual make() rules.
+func bytealgMakeNoZero(in *Interp, a []Value, _ *Frame) Value {
+	n := in.makeLen(a[0].(*term.Term), nil)
+	b := make([]*term.Term, n)
+	z := term.Const(8, 0)
+	for i := range b {
+		b[i] = z
+	}
+	return in.byteSlice(b)
+}
+
+// internal/bytealg.Index / IndexString (assembly on amd64): index of the first occurrence of b
+// in a, or -1. Branch-free model: an ite chain over the candidate positions, each guarded by the
+// conjunction of byte equalities of the window (lengths are concrete in the engine).
+
+func valueBytes(in *Interp, v Value) []*term.Term {
+	switch x := v.(type) {
+	case Slice:
+		return in.sliceTerms(x)
+	case Str:
+		return x.Bytes()
+	}
+	panic(in.unsupported("bytealg.Index: unexpected argument kind"))
+}
+
+func bytealgIndex(in *Interp, a []Value, _ *Frame) Value {
+	hay, needle := valueBytes(in, a[0]), valueBytes(in, a[1])
+	res := term.Const(64, ^uint64(0))
+	n := len(needle)
+	for i := len(hay) - n; i >= 0; i-- {
+		eq := strEq(mkStr(hay[i:i+n]), mkStr(needle))
+		res = term.Ite(eq, term.Const(64, uint64(i)), res)
+	}
+	return res
+}
+
 func init() {
-	RegisterIntrinsic("internal/bytealg.MakeNoZero", func(in *Interp, a []Value, _ *Frame) Value {
-		n := in.makeLen(a[0].(*term.Term), nil)
-		b := make([]*term.Term, n)
-		z := term.Const(8, 0)
-		for i := range b {
-			b[i] = z
-		}
-		return in.byteSlice(b)
-	})
+	RegisterIntrinsic("internal/bytealg.MakeNoZero", bytealgMakeNoZero)
+	RegisterIntrinsic("internal/bytealg.Index", bytealgIndex)
+	RegisterIntrinsic("internal/bytealg.IndexString", bytealgIndex)
 }
